@@ -299,6 +299,11 @@ type world struct {
 	// the index file changed on the disk (external writer) since the warm
 	// repository last looked at it
 	extPending bool
+	// stat and content of the index file as go-git last had the chance to read it (after a go-git call or a Status)
+	seenT    time.Time
+	seenSize int
+	seenHash string
+	seenSet  bool
 	judged     int
 	gs         *gitSession
 	// recorded: per index entry, the stat data last seen and the tick in which
@@ -928,6 +933,12 @@ func (w *world) extIndex(s Step, W wtree, mt map[string]time.Time) string {
 		return "extindex: encode failed: " + err.Error()
 	}
 	oldT, oldSize, oldHash := indexStat(d)
+	if w.seenSet {
+		// What matters is the file as go-git last saw it, not as the previous external rewrite left it: two
+		// rewrites within one tick that bring the size back (rm --cached p; add -N p) are just as invisible to a
+		// stat-keyed cache as a single one (thorough tier, seed 11).
+		oldT, oldSize, oldHash = w.seenT, w.seenSize, w.seenHash
+	}
 	forced := ""
 	if core.HashStrings([]string{buf.String()}) != oldHash && buf.Len() == oldSize && d.Now().Equal(oldT) {
 		// a rewrite that changes neither the size nor the mtime tick of the
@@ -1310,6 +1321,8 @@ func (w *world) checkpoint(i int) bool {
 		out.Probe("warm-cache-status-after-external-rewrite")
 		w.extPending = false
 	}
+	w.seenT, w.seenSize, w.seenHash = indexStat(d)
+	w.seenSet = true
 	d.ResetCounters()
 	s, err := w.status(w.warm, git.Empty)
 	warmCounts := d.ClassCounts()
@@ -1495,6 +1508,8 @@ func execPlan(t *testing.T, pa any) (out core.Outcome) {
 				w.writer = "gogit"
 				w.extPending = false
 			}
+			w.seenT, w.seenSize, w.seenHash = indexStat(d)
+			w.seenSet = true
 			w.logf("step %d %s: go-git: %s: %s", i, gapNames[mod(s.Gap, 4)], desc, res)
 		default:
 			w.logf("step %d: unknown kind %q skipped", i, s.Kind)
